@@ -12,7 +12,7 @@ Model/C06HeapOps.lean (`names`, `size`, `getList`, `last`, `first`, `deref`, `se
 
 Translation rules (compositional; anything else raises TranslateError => tie broken):
   self / other                      a `SimulationResults` address `s` / `o`
-  X._results, X[key], len(X), X.get_result_names(), X._results.keys(), `key in …`
+  X._results, X[key], len(X), X.get_result_names(), X._results.keys(), list(X._results), `key in …`
                                     `getList` / `size` / `names` / membership in `names`
                                     (`__getitem__`, `__len__`, `get_result_names` are inlined, they must
                                     be single `return` methods)
@@ -26,7 +26,12 @@ Translation rules (compositional; anything else raises TranslateError => tie bro
   D[key] = [copy.deepcopy(v) for v in L]      `copyElems` (new objects, left to right) + `setEntryNewList`
   L.append(r)                       `listAppend`
   for v in <names>: body            a recursive function over the list of names, which is computed once
-                                    before the loop (no break / continue / return inside)
+                                    before the loop (no break / continue / return inside); a loop directly over a
+                                    dictionary / its keys only if the body stores into no dictionary
+  [x for x in <names> if c(x)]      the same names with a filter that may only compare the name with literals;
+                                    `for x in [y for y in L if c(y)]: B` is emitted as `for x in L: if c(x): B`
+  b = <test>                        the test as evaluated on the machine of that moment, used by later `if b`
+  if … (closed: no `return`, no local of it used afterwards)   a statement of its own, sequenced with what follows
   if / else, raise E(…), local assignments, calls of other methods of the class through self (inlined)
 Convention: a method taking another result set starts by checking that both addresses are valid
 (`AttributeError` otherwise, as in the hand model; it cannot happen in Python).
